@@ -477,6 +477,10 @@ def call(interp, st, node):
                 continue
             items = interp.lib.iter_values(interp, st, v, a)
             if not isinstance(items, list):
+                if isinstance(items, SymList) and len(node.args) == 1 and not node.keywords and isinstance(f, I.Native) and f.name == "zip":
+                    # zip(*rows) over a symbolic-length list of fixed-width rows: the transposition
+                    from .npmodel4 import zip_star
+                    return zip_star(interp, st, items, node)
                 raise Outside("star-args of symbolic length", node)
             args.extend(items)
         else:
@@ -710,7 +714,7 @@ def construct(interp, st, cref, args, kwargs, node):
         init = r[0]
     if init is not None:
         con = reg.contract_for(init)
-        if reg.may_inline(init) and (con is None or con.assumed):
+        if reg.may_inline(init):
             # the real __init__ body is executed on a fresh record (no assumed contract needed)
             obj = Rec(cref.name, {})
             env = bind_params(interp, st, init.node, [obj] + args, kwargs, init.mod, init.cls, node)
